@@ -10,10 +10,10 @@ for d in $O/benign-*.diff; do
   [ -f "$d" ] || continue
   (cd $W && git checkout -q -- . && git apply "$d") || { echo "$WT $(basename $d): patch does not apply"; continue; }
   res=""
-  for c in C01 C02 C03 C04 C05 C06 C07 C08 C09 C10 C11 C12 C13 C14 C15 C16 C17 C18 C19 C20; do
+  for c in ${BENIGN_CHECKS:-C01 C02 C03 C04 C05 C06 C07 C08 C09 C10 C11 C12 C13 C14 C15 C16 C17 C18 C19 C20}; do
     out=$(cd /verif && timeout 900 ./gpv check $c 2>&1); rc=$?
     if [ $rc -ne 0 ]; then res="$res $c:exit$rc"; echo "$out" | grep "^VIOLATION\|^  what\|^INCONCLUSIVE" | head -4 | sed "s/^/    [$WT $(basename $d) $c] /" | cut -c1-400; fi
   done
-  echo "$WT $(basename $d): ${res:- all 20 checks exit 0}"
+  echo "$WT $(basename $d): ${res:- all checks exit 0 (${BENIGN_CHECKS:-all 20})}"
   (cd $W && git checkout -q -- .)
 done
